@@ -13,6 +13,7 @@ import (
 	"verif.local/explore"
 	"verif.local/vrt"
 	"verif.local/vrt/vatomic"
+	"verif.local/vrt/vconcurrent"
 	"verif.local/vrt/vctx"
 	"verif.local/vrt/vsync"
 	"verif.local/vrt/vtime"
@@ -60,6 +61,10 @@ func main() {
 		{name: "independent critical sections (3 goroutines, private mutexes): one outcome, HB pruning collapses the interleavings", bound: -1, wantViol: false, body: independentLockers, outcomes: []string{"6"}},
 		{name: "two producers, one consumer, plus independent noise: both delivery orders are seen", bound: -1, wantViol: false, body: producersWithNoise, outcomes: []string{"ab", "ba"}},
 		{name: "lost update amid independent noise is still found at bound 1", bound: 1, wantViol: true, body: lostUpdateWithNoise},
+		{name: "Broadcast without the lock between the waiter's check and its Wait needs two preemptions: invisible at bound 1", bound: 1, wantViol: false, body: unlockedBroadcast, mayBlock: true},
+		{name: "Broadcast without the lock between the waiter's check and its Wait: lost wake-up found at bound 2", bound: 2, wantViol: true, body: unlockedBroadcast, mayBlock: true},
+		{name: "context.AfterFunc runs after cancel, never after a successful stop", bound: 2, wantViol: false, body: afterFunc, outcomes: []string{"ran", "stopped"}},
+		{name: "lock-free map: load-miss then store by two goroutines is a check-then-act, found at bound 1", bound: 1, wantViol: true, body: trieCheckThenAct},
 		{name: "check-then-act amid independent noise: all final values reachable without a bound", bound: -1, wantViol: false, body: raceOutcomesWithNoise, outcomes: []string{"1", "2"}},
 	}
 	failed := 0
@@ -444,6 +449,66 @@ func ctxWake(x *explore.X) {
 		x.Outcome("woken")
 	} else {
 		x.Failf("not woken")
+	}
+}
+
+func unlockedBroadcast(x *explore.X) {
+	var mu vsync.Mutex
+	c := vsync.NewCond(&mu)
+	var ready vatomic.Bool
+	done := false
+	vrt.Go(func() {
+		mu.Lock()
+		for !ready.Load() {
+			c.Wait()
+		}
+		mu.Unlock()
+		done = true
+	})
+	ready.Store(true)
+	c.Broadcast() // BUG: not under the lock, can fall between the waiter's check and its Wait
+	vrt.WaitQuiescent()
+	if !done {
+		x.Failf("waiter sleeps forever")
+	}
+}
+
+func afterFunc(x *explore.X) {
+	ctx, cancel := vctx.WithCancel(context.Background())
+	ran := false
+	stop := vctx.AfterFunc(ctx, func() { ran = true })
+	stopped := false
+	if vrt.Choose(2, "stop first") == 1 {
+		stopped = stop()
+	}
+	cancel()
+	vrt.WaitQuiescent()
+	switch {
+	case stopped && ran:
+		x.Failf("the function ran after a successful stop")
+	case !stopped && !ran:
+		x.Failf("the function did not run after cancel")
+	case ran:
+		x.Outcome("ran")
+	default:
+		x.Outcome("stopped")
+	}
+}
+
+func trieCheckThenAct(x *explore.X) {
+	m := vconcurrent.NewHashTrieMap[string, int]()
+	stores := 0
+	for i := 1; i <= 2; i++ {
+		vrt.Go(func() {
+			if _, ok := m.Load("k"); !ok {
+				m.Store("k", i)
+				stores++
+			}
+		})
+	}
+	vrt.WaitQuiescent()
+	if stores != 1 {
+		x.Failf("%d stores for one key", stores)
 	}
 }
 
